@@ -32,6 +32,11 @@ __CPROVER_requires(acmod != NULL && __CPROVER_r_ok(inout_n_samps, sizeof(size_t)
 __CPROVER_assigns(*inout_raw, *inout_n_samps, verif_raw_calls)
 __CPROVER_ensures(__CPROVER_return_value >= -1 && *inout_n_samps <= __CPROVER_old(*inout_n_samps))
 ;
+int acmod_process_float32(acmod_t *acmod, float32 **inout_raw, size_t *inout_n_samps, int full_utt)
+__CPROVER_requires(acmod != NULL && __CPROVER_r_ok(inout_n_samps, sizeof(size_t)))
+__CPROVER_assigns(*inout_raw, *inout_n_samps, verif_raw_calls)
+__CPROVER_ensures(__CPROVER_return_value >= -1 && *inout_n_samps <= __CPROVER_old(*inout_n_samps))
+;
 int acmod_set_grow(acmod_t *acmod, int grow) __CPROVER_requires(acmod != NULL) __CPROVER_assigns() __CPROVER_ensures(1);
 int decoder_process_int16(decoder_t *d, int16 *data, size_t n_samples, int no_search, int full_utt)
 __CPROVER_requires(__CPROVER_is_fresh(d, sizeof(*d)) && __CPROVER_is_fresh(d->acmod, sizeof(*d->acmod)))
@@ -39,6 +44,14 @@ __CPROVER_requires(d->acmod->state == ACMOD_STARTED || d->acmod->state == ACMOD_
 __CPROVER_requires(0 <= verif_fwd_sum && verif_fwd_sum <= 0x00ffffff)
 __CPROVER_assigns(verif_fwd_sum, verif_raw_calls)
 /* the value returned is the total number of frames searched during the call, however many rounds it took */
+__CPROVER_ensures(IMP(__CPROVER_return_value >= 0, __CPROVER_return_value == verif_fwd_sum - __CPROVER_old(verif_fwd_sum)))
+__CPROVER_ensures(IMP(no_search && __CPROVER_return_value >= 0, __CPROVER_return_value == 0))
+;
+int decoder_process_float32(decoder_t *d, float32 *data, size_t n_samples, int no_search, int full_utt)
+__CPROVER_requires(__CPROVER_is_fresh(d, sizeof(*d)) && __CPROVER_is_fresh(d->acmod, sizeof(*d->acmod)))
+__CPROVER_requires(d->acmod->state == ACMOD_STARTED || d->acmod->state == ACMOD_PROCESSING)
+__CPROVER_requires(0 <= verif_fwd_sum && verif_fwd_sum <= 0x00ffffff)
+__CPROVER_assigns(verif_fwd_sum, verif_raw_calls)
 __CPROVER_ensures(IMP(__CPROVER_return_value >= 0, __CPROVER_return_value == verif_fwd_sum - __CPROVER_old(verif_fwd_sum)))
 __CPROVER_ensures(IMP(no_search && __CPROVER_return_value >= 0, __CPROVER_return_value == 0))
 ;
